@@ -26,6 +26,9 @@ pub struct TreeCase {
     /// fault points: None = enumerate every byte limit up to the longest new text (small trees only)
     pub faults: Option<Vec<(u32, bool)>>,
     pub enumerate: bool,
+    /// notes (paths as in `notes`) that are symbolic links to a file kept under linkstore/
+    #[serde(default)]
+    pub linked: Vec<String>,
 }
 
 const NAMES: &[&str] = &["a", "b", "index", "my note", "\u{fc}ber", "n1", "todo list", "x_y", "v1.2", "2024.01.03", "release-v1"];
@@ -62,10 +65,19 @@ fn snapshot(root: &Path) -> BTreeMap<String, (Option<Vec<u8>>, Option<std::time:
 fn materialise(root: &Path, case: &TreeCase) -> Result<(), String> {
     let lib_root = if case.config == 3 { root.join("notes") } else { root.to_path_buf() };
     std::fs::create_dir_all(&lib_root).map_err(|e| e.to_string())?;
-    for (p, text) in &case.notes {
+    for (i, (p, text)) in case.notes.iter().enumerate() {
         let f = lib_root.join(format!("{}.md", p));
         std::fs::create_dir_all(f.parent().unwrap()).map_err(|e| e.to_string())?;
-        std::fs::write(&f, text).map_err(|e| e.to_string())?;
+        if case.linked.contains(p) {
+            // the note is a symbolic link; its text lives in a file that is not a note
+            let store = root.join("linkstore");
+            std::fs::create_dir_all(&store).map_err(|e| e.to_string())?;
+            let target = store.join(format!("{}.text", i));
+            std::fs::write(&target, text).map_err(|e| e.to_string())?;
+            std::os::unix::fs::symlink(&target, &f).map_err(|e| e.to_string())?;
+        } else {
+            std::fs::write(&f, text).map_err(|e| e.to_string())?;
+        }
     }
     for (p, c) in &case.others {
         let f = root.join(p);
@@ -120,7 +132,7 @@ impl Property for C19 {
         "fault_enumeration"
     }
     fn rule(&self) -> String {
-        "generated directory trees (notes in nested directories with spaces and non-ASCII in names, non-note files, empty directories, .iwe/config.toml with refs_extension and library.path variants) are materialised under /verif/work/fs and the built `iwe normalize` is run there; fault cases add (k, disposition): RLIMIT_FSIZE = k set in the child before exec with SIGXFSZ at its default (the process dies at byte k of the first file longer than k) or ignored (the write fails with EFBIG and the error path runs); for small trees every k from 0 to the longest new text is enumerated under both dispositions; oracle without fault: every note file holds exactly the text the in-memory export (Graph::import + export over the harness's own directory walk) defines, every other file and directory is byte-, name- and mtime-identical, nothing is created or deleted; with a fault: every note file equals its complete old or its complete new text; non-trivial = a nested directory and a non-note file, and for fault cases a limit strictly inside some note's new length".into()
+        "generated directory trees (notes in nested directories with spaces and non-ASCII in names, non-note files, empty directories, notes that are symbolic links to a file kept elsewhere, .iwe/config.toml with refs_extension and library.path variants) are materialised under /verif/work/fs and the built `iwe normalize` is run there; fault cases add (k, disposition): RLIMIT_FSIZE = k set in the child before exec with SIGXFSZ at its default (the process dies at byte k of the first file longer than k) or ignored (the write fails with EFBIG and the error path runs); for small trees every k from 0 to the longest new text is enumerated under both dispositions; oracle without fault: every note file holds exactly the text the in-memory export (Graph::import + export over the harness's own directory walk) defines, every other file and directory is byte-, name- and mtime-identical, nothing is created or deleted; with a fault: every note file equals its complete old or its complete new text; non-trivial = a nested directory and a non-note file, and for fault cases a limit strictly inside some note's new length".into()
     }
     fn assumptions(&self) -> Vec<String> {
         vec![
@@ -158,8 +170,9 @@ impl Property for C19 {
             0u8..4,
             proptest::option::weighted(0.7, vec((0u32..400, any::<bool>()), 1..4)),
             proptest::bool::weighted(0.1),
+            vec(proptest::bool::weighted(0.15), 5),
         )
-            .prop_map(|(mut notes, mut others, empty_dirs, config, faults, enumerate)| {
+            .prop_map(|(mut notes, mut others, empty_dirs, config, faults, enumerate, link_mask)| {
                 notes.sort();
                 notes.dedup_by(|a, b| a.0 == b.0);
                 others.sort();
@@ -167,7 +180,8 @@ impl Property for C19 {
                 // a non-note file must not collide with a note file or directory
                 let note_paths: Vec<String> = notes.iter().map(|(p, _)| format!("{}.md", p)).collect();
                 others.retain(|(p, _)| !note_paths.contains(p));
-                TreeCase { notes, others, empty_dirs, config, faults, enumerate }
+                let linked: Vec<String> = notes.iter().enumerate().filter(|(i, _)| link_mask.get(*i).copied().unwrap_or(false)).map(|(_, (p, _))| p.clone()).collect();
+                TreeCase { notes, others, empty_dirs, config, faults, enumerate, linked }
             })
             .boxed()
     }
@@ -256,6 +270,9 @@ impl Property for C19 {
                                     );
                                 }
                             }
+                            // (the file a linked note points at is the note's text kept elsewhere:
+                            // whether the tool writes through the link or replaces it is not judged)
+                            None if p.starts_with("linkstore/") => {}
                             None => {
                                 if c2 != content {
                                     return fail("c19|other-file-changed", format!("{} is not a note of the library but its content changed", p));
@@ -297,7 +314,7 @@ impl Property for C19 {
                     }
                     // non-note files untouched
                     for (p, (content, _)) in &before {
-                        if content.is_some() && !p.ends_with(".md") {
+                        if content.is_some() && !p.ends_with(".md") && !p.starts_with("linkstore/") {
                             if after.get(p).map(|(c, _)| c) != Some(content) {
                                 return fail("c19|other-file-changed", format!("{} changed during a failed run", p));
                             }
@@ -313,6 +330,6 @@ impl Property for C19 {
         Verdict::Pass { nontrivial }
     }
     fn sample(&self, case: &TreeCase) -> Value {
-        json!({"notes": case.notes.iter().map(|(p, t)| (p.clone(), t.chars().take(80).collect::<String>())).collect::<Vec<_>>(), "others": case.others, "empty_dirs": case.empty_dirs, "config": case.config, "faults": case.faults, "enumerate": case.enumerate})
+        json!({"notes": case.notes.iter().map(|(p, t)| (p.clone(), t.chars().take(80).collect::<String>())).collect::<Vec<_>>(), "others": case.others, "empty_dirs": case.empty_dirs, "config": case.config, "faults": case.faults, "enumerate": case.enumerate, "linked": case.linked})
     }
 }
